@@ -22,6 +22,10 @@ UNIVERSES = {
     # three contracts (a target may then name only some of the held ones)
     "three": (("S", 1.0, 1.0, 0.0), ("F", 2.0, 0.0, 0.25), ("T", 2.0, 1.0, 0.0)),
 }
+# prices of the order of 1e-6 with multipliers of the order of 1e8 (explored with quotes scaled by MICRO): the same
+# account values as "spot1+fut", but every absolute price move is far below any absolute tolerance an implementation might use
+MICRO = 2.0 ** -26
+MICRO_UNIVERSE = {"micro": (("SM", 2.0 ** 26, 1.0, 0.0), ("FM", 2.0 ** 27, 0.0, 0.25))}
 FEES = [(0.0, 0.0), (1.0, 1.0 / 64), (1.0, 0.0), (0.0, 1.0 / 64), (2.0, 1.0 / 128), (0.0, 0.0002),
         (512.0, 0.0)]     # a fixed fee larger than the value of a few lots: such trades are still due
 BASE_QUOTES = [(100.0, 100.0), (100.0, 104.0), (92.0, 96.0), (112.0, 112.0), (48.0, 52.0)]
@@ -41,8 +45,13 @@ def palette():
     return PALETTES[seed() % len(PALETTES)]
 
 
+def unit_scale(universe, scale):
+    """quote scale to use for a universe given the palette's scale"""
+    return scale * MICRO if universe == "micro" else scale
+
+
 def contracts_of(universe):
-    return tuple(UC(*spec) for spec in UNIVERSES[universe])
+    return tuple(UC(*spec) for spec in (UNIVERSES.get(universe) or MICRO_UNIVERSE[universe]))
 
 
 def quotes_of(scale):
